@@ -156,6 +156,7 @@ def diff_files(x, y):
 # --------------------------------------------------------------------------
 # one simulated run
 # --------------------------------------------------------------------------
+SESSION_DIRS = ["astrophysics_s", "jack_rates_s", "constants_v2_s", "renorm_fex_s", "plain_s", "Reaction rates s"]
 CLOCK0 = _dt.datetime(2024, 1, 15, 12, 0, 0)
 CLOCK_JUMPS = [1, 3600, 86400, 17 * 86400, 40 * 86400, 400 * 86400, -86400 * 20]
 
@@ -313,7 +314,8 @@ def execute(plan_or_trace, lib_by_id, refs, rundir, rng=None, neutralise=None):
     tr = plan_or_trace
     sessions = []
     for i, did in enumerate(tr["sessions"]):
-        sessions.append(c17_session.Session(lib_by_id[did], os.path.join(rundir, f"s{i}")))
+        # directory names a user might choose; the rendering must not care what the path says
+        sessions.append(c17_session.Session(lib_by_id[did], os.path.join(rundir, SESSION_DIRS[i % len(SESSION_DIRS)] + str(i))))
     seams.CLOCK.set(CLOCK0 + _dt.timedelta(days=tr["clock_start_days"]))
     events = tr["events"] if replaying else []
     log = K.EventLog()
@@ -803,7 +805,10 @@ def main(argv):
     ref_s = timer.s()
     expected = {d["id"] for d in lib if d.get("expect_unusable")} | {d["id"] for d in lib if d.get("twin_of") in
                                                                      {x["id"] for x in lib if x.get("expect_unusable")}}
-    if not hs_viol and (len([u for u in unusable if not u.startswith("rnd-") and "~t" not in u and u not in expected]) > 6
+    # (a guard against a broken harness or library, not an oracle: only the hand-written base
+    # descriptions count - perturbed twins and the solo-only variants are sloppy on purpose)
+    nbase = len([d for d in lib if "~" not in d["id"]])
+    if not hs_viol and (len([u for u in unusable if not u.startswith("rnd-") and "~" not in u and u not in expected]) > 6 + nbase // 50
                         or len(unusable) > len(lib) * 0.5):
         raise K.HarnessError(f"too many unusable descriptions: {unusable}")
     usable = [d for d in lib if d["id"] not in unusable and not d.get("twin_of") and not d.get("solo_only")
